@@ -964,6 +964,38 @@ func (s *sim) gossipSlot(slot uint64, blk *blockRec, parent *blockRec, hb *state
 			}
 		}
 		g.head = save
+		// ... and once more now that the block carrying them is the head: the node has seen each of them, so
+		// a late copy is a duplicate (IGNORE) even though the head state no longer finds the validator slashable
+		// or able to exit
+		if rr := refsOf(blk.signed); rr != nil && g.head == blk && !s.stop {
+			for i := range *rr.exits {
+				ex := (*rr.exits)[i]
+				if !g.seen[fmt.Sprintf("exit/%d", ex.Message.ValidatorIndex)] || s.stop {
+					continue
+				}
+				res, p := validate(func() gossipval.GossipValidatorResult { return gossipval.ValidateVoluntaryExit(ctx, &ex, g) })
+				s.res.Stat("fault_dup_after_inclusion", 1)
+				s.judge(g, "voluntary_exit", fmt.Sprintf("exit of validator %d delivered again after the block that carries it became the head", ex.Message.ValidatorIndex), expTiming, res, p)
+			}
+			for i := range *rr.ps {
+				sl := (*rr.ps)[i]
+				if !g.seen[fmt.Sprintf("ps/%d", sl.SignedHeader1.Message.ProposerIndex)] || s.stop {
+					continue
+				}
+				res, p := validate(func() gossipval.GossipValidatorResult { return gossipval.ValidateProposerSlashing(ctx, &sl, g) })
+				s.res.Stat("fault_dup_after_inclusion", 1)
+				s.judge(g, "proposer_slashing", fmt.Sprintf("proposer slashing of %d delivered again after the block that carries it became the head", sl.SignedHeader1.Message.ProposerIndex), expTiming, res, p)
+			}
+			for i := range *rr.as {
+				sl := (*rr.as)[i]
+				if s.stop {
+					break
+				}
+				res, p := validate(func() gossipval.GossipValidatorResult { return gossipval.ValidateAttesterSlashing(ctx, &sl, g) })
+				s.res.Stat("fault_dup_after_inclusion", 1)
+				s.judge(g, "attester_slashing", fmt.Sprintf("attester slashing of %v delivered again after the block that carries it became the head", sl.Attestation1.AttestingIndices), expTiming, res, p)
+			}
+		}
 	}
 	if s.stop {
 		return
